@@ -5,6 +5,9 @@
 package c03
 
 import (
+	mrand "math/rand"
+	"sync"
+
 	"bytes"
 	"context"
 	"crypto/sha256"
@@ -47,6 +50,8 @@ type Adv struct {
 	// Copies > 1: a DA item is published that many times (a third party flooding the chain's namespace at
 	// one DA height: the genuine blobs of that height are far down the listing).
 	Copies int `json:"copies,omitempty"`
+	// KeyType: the type of the adversary's own key: "" ed25519 (as the chain's) | secp256k1 | ecdsa | rsa
+	KeyType string `json:"key_type,omitempty"`
 }
 
 type Scenario struct {
@@ -84,6 +89,9 @@ func gen(t *rapid.T) Scenario {
 	for i := 0; i < n; i++ {
 		a := Adv{Kind: rapid.SampledFrom(kinds).Draw(t, "kind"), Target: rapid.IntRange(1, len(sc.Chain)).Draw(t, "target"),
 			Mut: rapid.IntRange(0, 400).Draw(t, "mut"), Ingress: rapid.SampledFrom([]string{"da", "da", "p2p"}).Draw(t, "ingress"), Early: rapid.Bool().Draw(t, "early")}
+		if rapid.IntRange(0, 3).Draw(t, "foreignkeytype") == 0 {
+			a.KeyType = rapid.SampledFrom([]string{"secp256k1", "secp256k1", "ecdsa", "rsa"}).Draw(t, "keytype")
+		}
 		if rapid.IntRange(0, 5).Draw(t, "flood") == 0 {
 			a.Copies = rapid.SampledFrom([]int{3, 101, 120, 199, 250}).Draw(t, "copies")
 		}
@@ -129,8 +137,34 @@ func marshalHeader(h *types.SignedHeader) []byte {
 
 // build constructs the adversarial item; the adversary knows the genesis, sees all genuine traffic
 // and owns a fresh key, but never the proposer's private key.
+var advKeys sync.Map
+
+// advKey is the adversary's own key pair of the given type (generated once per process from a fixed stream).
+func advKey(kind string) (crypto.PrivKey, crypto.PubKey) {
+	if kind == "" {
+		return world.KeyFromSeed("adversary")
+	}
+	if v, ok := advKeys.Load(kind); ok {
+		kp := v.([2]any)
+		return kp[0].(crypto.PrivKey), kp[1].(crypto.PubKey)
+	}
+	typ, bits := crypto.Secp256k1, 0
+	switch kind {
+	case "ecdsa":
+		typ = crypto.ECDSA
+	case "rsa":
+		typ, bits = crypto.RSA, 2048
+	}
+	priv, pub, err := crypto.GenerateKeyPairWithReader(typ, bits, mrand.New(mrand.NewSource(int64(len(kind))*7919)))
+	if err != nil {
+		panic(err)
+	}
+	advKeys.Store(kind, [2]any{priv, pub})
+	return priv, pub
+}
+
 func build(a Adv, c *fw.Chain) item {
-	advPriv, advPub := world.KeyFromSeed("adversary")
+	advPriv, advPub := advKey(a.KeyType)
 	it := item{adv: a}
 	top := len(c.Blocks)
 	tgt := a.Target
@@ -592,6 +626,9 @@ func run(sc Scenario, dir string) world.Verdict {
 		for i, a := range sc.Advs {
 			items[i] = build(a, c)
 			labels = append(labels, a.Kind+"/"+a.Ingress)
+			if a.KeyType != "" {
+				labels = append(labels, "adversary-key:"+a.KeyType)
+			}
 			if a.Copies > 100 && a.Ingress == "da" {
 				labels = append(labels, "da-flood>100-blobs-at-one-height")
 			}
